@@ -899,6 +899,11 @@ impl Context {
                     is_const,
                 )
             }
+            // a string default on a `binary` field with pilota.rust_type = "vec"
+            (Literal::String(s), CodegenTy::Vec(inner)) if matches!(**inner, CodegenTy::U8) => {
+                let s = escape_double_quotes(s);
+                (format! { "\"{s}\".as_bytes().to_vec()" }.into(), false)
+            }
             // a `pilota.rust_wrapper_arc` target: the value of the wrapped type, wrapped
             (l, CodegenTy::Arc(inner_ty)) => {
                 let (stream, _) = self.lit_as_rvalue(l, inner_ty)?;
